@@ -8,37 +8,49 @@ ASSUMPTIONS = [
     "three services: A and B register the same message type, C registers two message types; every (service, message) pair is probed, "
     "including messages a service implements but does not register",
     "all add/remove histories up to the length bound (6^L), each replayed on a fresh real Server on 127.0.0.1 with real clients",
+    "second run: the same histories extended with `hold s` (a request to s that stays inside its handler, sent on the SAME connection as the probes) "
+    "and `release`; a held request must have been dispatched iff its service was registered when it arrived, and probes after a removal are refused "
+    "although a request of the removed service is still running",
     "handler keys are assumed collision free (DefaultHasher of the URI) on the names in use",
 ]
+
+
+def _one(ctx, binary, maxlen, inflight, name):
+    cfg = vlib.cfg_text(constants=dict(CONSTS, MaxLen=maxlen, EmitHist=True, WithInFlight=inflight),
+                        invariants=["C13_ServedIffRegistered"], properties=["C13_HeldWasRegistered"],
+                        constraints=["Emit"]).replace("CONSTANTS\n", "CONSTANTS\n  Handles <- HandlesDef\n")
+    out = ctx.path("replay_%s.json" % name)
+    gen, text = vlib.tlc_pipe(ctx, "MC_RpcRegistry", cfg, "gen_" + name,
+                              [binary, "replay-registry", "--input", "-", "--out", out, "--passthrough", ctx.path("gen_%s.tlc" % name)],
+                              timeout=3000)
+    if gen["consumer_exit"] != 0 or gen["distinct"] is None or (gen["errors"] and not gen["violated"]):
+        raise vlib.ToolError("generation/replay failed:\n" + text[-2000:])
+    rep = vlib.load_json(out)
+    if not inflight and rep["evaluations"] != 6 ** maxlen:
+        raise vlib.ToolError("replayed %d histories, expected %d" % (rep["evaluations"], 6 ** maxlen))
+    if rep["evaluations"] == 0 or rep["served_probes"] == 0 or rep["refused_probes"] == 0:
+        raise vlib.ToolError("vacuous: %s" % {k: rep[k] for k in ("evaluations", "served_probes", "refused_probes")})
+    ctx.log("RpcRegistry (%s): %d states; %d histories replayed on a real server, %d probes, %d violations" % (
+        "with requests in flight" if inflight else "sequential", gen["distinct"], rep["evaluations"], rep["probes"], rep["violation_count"]))
+    if gen["violated"] and not rep["violation_count"]:
+        raise vlib.ToolError("TLC reports %s on the faithful layer but the real server shows no violation" % gen["violated"])
+    for v in rep["violations"][:3]:
+        ctx.violations.append(dict(engine="h-rpc replay-registry", **v))
+    return gen, rep
 
 
 def run(ctx):
     binary = vlib.build_harness(ctx, "h-rpc")
     maxlen = 4 if ctx.tier == "quick" else 6
-    consts = dict(CONSTS, MaxLen=maxlen)
-    consts["Handles <- HandlesDef"] = None
-    cfg = vlib.cfg_text(constants=dict(CONSTS, MaxLen=maxlen, EmitHist=True), invariants=["C13_ServedIffRegistered"],
-                        constraints=["Emit"]).replace("CONSTANTS\n", "CONSTANTS\n  Handles <- HandlesDef\n")
-    out = ctx.path("replay.json")
-    gen, text = vlib.tlc_pipe(ctx, "MC_RpcRegistry", cfg, "gen",
-                              [binary, "replay-registry", "--input", "-", "--out", out, "--passthrough", ctx.path("gen.tlc")],
-                              timeout=1500)
-    if gen["consumer_exit"] != 0 or gen["distinct"] is None or (gen["errors"] and not gen["violated"]):
-        raise vlib.ToolError("generation/replay failed:\n" + text[-2000:])
-    rep = vlib.load_json(out)
-    if rep["evaluations"] != 6 ** maxlen:
-        raise vlib.ToolError("replayed %d histories, expected %d" % (rep["evaluations"], 6 ** maxlen))
-    if rep["served_probes"] == 0 or rep["refused_probes"] == 0:
-        raise vlib.ToolError("vacuous: probes never served / never refused")
-    ctx.log("RpcRegistry: %d states; %d histories replayed on a real server, %d probes, %d violations" % (
-        gen["distinct"], rep["evaluations"], rep["probes"], rep["violation_count"]))
-    if gen["violated"] and not rep["violation_count"]:
-        raise vlib.ToolError("TLC reports %s on the faithful layer but the real server shows no violation" % gen["violated"])
-    for v in rep["violations"][:3]:
-        ctx.violations.append(dict(engine="h-rpc replay-registry", **v))
-    cov = {"states": gen["distinct"], "transitions": gen["generated"], "traces_validated_against_impl": rep["evaluations"],
-           "samples": rep["samples"][:4], "exhaustive": True, "probes": rep["probes"], "served_probes": rep["served_probes"],
-           "refused_probes": rep["refused_probes"], "max_history_length": maxlen, "checker_cmd": gen["cmd"]}
+    g1, r1 = _one(ctx, binary, maxlen, False, "seq")
+    g2, r2 = _one(ctx, binary, 4 if ctx.tier == "quick" else 5, True, "inflight")
+    cov = {"states": g1["distinct"] + g2["distinct"], "transitions": g1["generated"] + g2["generated"],
+           "traces_validated_against_impl": r1["evaluations"] + r2["evaluations"],
+           "samples": r1["samples"][:2] + r2["samples"][:3], "exhaustive": True,
+           "probes": r1["probes"] + r2["probes"], "served_probes": r1["served_probes"] + r2["served_probes"],
+           "refused_probes": r1["refused_probes"] + r2["refused_probes"],
+           "sequential_histories": r1["evaluations"], "histories_with_requests_in_flight": r2["evaluations"],
+           "checker_cmd": g1["cmd"]}
     return vlib.finish(ctx, "model_checking", cov, ASSUMPTIONS)
 
 
